@@ -5,7 +5,7 @@
 (* checked against the median definition for every integer series up to    *)
 (* MaxLen over 0..VMax, every window 0..8, with and without edge padding.  *)
 (***************************************************************************)
-EXTENDS SeriesProp, TLC, Json
+EXTENDS SeriesProp, StepFilterImpl, TLC, Json
 CONSTANTS MaxLen, VMax, Emit, Slice, NSlices
 VARIABLES xs, out
 vars == <<xs, out>>
@@ -13,21 +13,9 @@ vars == <<xs, out>>
 RECURSIVE SeqsOver(_)
 SeqsOver(n) == IF n = 0 THEN {<<>>} ELSE { Append(s, v) : s \in SeqsOver(n - 1), v \in 0..VMax }
 
-\* python: the window of element x (0-based) as _stepFilter builds it
-RECURSIVE PostCtx(_, _, _, _, _, _)
-PostCtx(d, x, y, o, lastKnown, acc) ==
-  IF y > o THEN acc
-  ELSE IF x + y >= Len(d) THEN PostCtx(d, x, y + 1, o, lastKnown, Append(acc, d[(IF lastKnown = 0 THEN x ELSE lastKnown) + 1]))
-       ELSE PostCtx(d, x, y + 1, o, x + y, Append(acc, d[x + y + 1]))
-PreCtx(d, x, o) == [k \in 1..o |-> LET y == o - k + 1 IN d[(IF x - y < 0 THEN 0 ELSE x - y) + 1]]
 SortInts(s) == SortSeq(s, LAMBDA a, b : a < b)
 MedianImpl(w) == SortInts(w)[(Len(w) + 1) \div 2]
-StepFilterImpl(d, window, pad) ==
-  LET o == window \div 2 IN
-  [i \in 1..Len(d) |-> LET x == i - 1 IN
-     IF pad \/ (0 <= x - o /\ x + o < Len(d))
-     THEN MedianImpl(PreCtx(d, x, o) \o <<d[i]>> \o PostCtx(d, x, 1, o, 0, <<>>))
-     ELSE d[i]]
+StepFilterImpl(d, window, pad) == StepFilter(MedianImpl, LAMBDA v : v, d, window, pad)
 
 Init == xs \in { s \in UNION { SeqsOver(n) : n \in 0..MaxLen } : (Len(s) + SumSeq(s)) % NSlices = Slice } /\ out = [op |-> "none"]
 Next == /\ out.op = "none"
